@@ -26,13 +26,15 @@ var h16Classes = []struct {
 // H16a: classes, named combinations, constructor defaults, retry budget.
 func H16a() {
 	// the built-ins must be what they are whatever recipes ran before in the process
-	if e := vChoice("earlier-recipe", 5); e > 0 {
+	if e := vChoice("earlier-recipe", 7); e > 0 {
 		vSummary(true)
 		r := []CharRecipe{
 			{Length: 3, Allow: Digits, AllowChars: "abcdef"},
 			{Length: 3, Allow: Uppers, AllowChars: "xy"},
 			{Length: 3, Allow: Lowers, ExcludeChars: "abc", AllowChars: "0"},
 			{Length: 3, Allow: Symbols, AllowChars: "é"},
+			{Length: 3, Allow: All, Exclude: Ambiguous, ExcludeChars: "abcxyz2346"},
+			{Length: 3, Allow: Letters, Exclude: Digits, ExcludeChars: "Q"},
 		}[e-1]
 		r.Generate()
 		r.Alphabet()
@@ -86,6 +88,8 @@ func H16p() {
 	} else if first == np+1 {
 		r := CharRecipe{Length: 3, Allow: Digits, AllowChars: "abcdef"}
 		r.Generate()
+		r2 := CharRecipe{Length: 3, Allow: All, Exclude: Ambiguous, ExcludeChars: "abcxyz2346"}
+		r2.Generate()
 	}
 	p := h16Presets[second]
 	d0 := vDrawCount()
